@@ -531,6 +531,30 @@ pub fn c10(tier: Tier) -> Vec<Case> {
             }
         }
     }
+    // (1c) failures far to the right
+    {
+        let mut linputs: Vec<String> = Vec::new();
+        for n in super::e1::long_counts(tier) {
+            linputs.push(format!("{}a", "b".repeat(n)));
+            linputs.push(format!("{}a", "bc".repeat(n)));
+            linputs.push(format!("{}", "cb".repeat(n)));
+            linputs.push(format!("{} a", "b ".repeat(n)));
+        }
+        let spec = InputSpec::List(linputs);
+        for e in [
+            seq(vec![star(lit("b")), lit("c"), Expr::Eoi]),
+            seq(vec![star(rref("X")), Expr::Eoi]),
+            seq(vec![star(choice(vec![lit("bc"), lit("b")])), opt(field("k", "K")), Expr::Eoi]),
+            seq(vec![plus(field("f", "X")), not(lit("a")), lit("c")]),
+        ] {
+            for noskip in [false, true] {
+                let g = root_grammar(dirs(noskip, &[Directive::Export, Directive::Position]), e.clone(), &leaves);
+                if wf::well_formed(&g) {
+                    b.add("errors/long-inputs", g, spec.clone());
+                }
+            }
+        }
+    }
     // (2) memoized grammars: the offset must be real
     let minputs = memo_inputs(tier);
     for (g, names) in memo_bases(Tier::Quick) {
